@@ -281,7 +281,7 @@ func genC04wt(seed uint64, tier string) *Scenario {
 		}
 		if over {
 			// the application does not read while the peer overruns the window
-			rpc.Client = append(rpc.Client, Op{Op: "sleep", Ns: horizon})
+			rpc.Client = append(rpc.Client, Op{Op: "sleep", Ns: horizon + 3000000000})
 			srv = append(srv, SOp{Op: "overrun", Over: core.Pick(r, 1, 1, 2, 100, 16384, 70000), N: core.Pick(r, 0, 0, 1, 1000)})
 			srv = append(srv, SOp{Op: "hang"})
 		} else {
